@@ -83,7 +83,7 @@ abbrev P (α : Type) := Bytes → List Eff × Out α
 def P.pure {α : Type} (a : α) : P α := fun s => ([], .ok a s)
 def P.bind {α β : Type} (p : P α) (f : α → P β) : P β := fun s =>
   match p s with
-  | (t, .ok a r) => let (t', o) := f a r; (t ++ t', o)
+  | (t, .ok a r) => (t ++ (f a r).1, (f a r).2)
   | (t, .again) => (t, .again)
   | (t, .err c) => (t, .err c)
   | (t, .unspec) => (t, .unspec)
@@ -178,25 +178,31 @@ def qScan : QMode → Bytes → List Eff × Out Unit
 /-- optional `?query` -/
 def queryOpt : P Unit := fun s =>
   match s with
+  | [] => ([], .again)              -- not reachable: the target scan stopped at '?' or SP
   | 63 :: r => qScan .head r
   | _ => ([], .ok () s)
 
-def requestLine : P Unit := do
-  let mtok ← untilAny [32]
-  match findIdx methodNames mtok with
-  | none => fail 400
-  | some i =>
-    emit (.setMethod i)
-    skip1
-    let res ← untilAny [63, 32]
-    emit (.setResource res)
-    queryOpt
-    skip1
-    let ver ← untilEol
-    if strncmpEq ver (bytes "HTTP/1.0") then emit (.setVersion 0)
-    else if strncmpEq ver (bytes "HTTP/1.1") then emit (.setVersion 1)
-    else fail 400
-    skip2
+def P.seq {α β : Type} (p : P α) (q : P β) : P β := P.bind p (fun _ => q)
+
+/-- `strncmp(ver, "HTTP/1.0", size) == 0` → 1.0, else `"HTTP/1.1"` → 1.1, else 400 -/
+def versionEff (ver : Bytes) : P Unit :=
+  if strncmpEq ver (bytes "HTTP/1.0") then emit (.setVersion 0)
+  else if strncmpEq ver (bytes "HTTP/1.1") then emit (.setVersion 1)
+  else fail 400
+
+def requestLine : P Unit :=
+  P.bind (untilAny [32]) fun mtok =>
+    match findIdx methodNames mtok with
+    | none => fail 400
+    | some i =>
+      P.seq (emit (.setMethod i)) <|
+      P.seq skip1 <|
+      P.bind (untilAny [63, 32]) fun res =>
+      P.seq (emit (.setResource res)) <|
+      P.seq queryOpt <|
+      P.seq skip1 <|
+      P.bind untilEol fun ver =>
+      P.seq (versionEff ver) skip2
 
 /-! ### response line -/
 
@@ -210,20 +216,22 @@ def expectSpOrEof : P Unit := fun s1 =>
   | [] => ([], .again)
   | c :: r => if c = 32 ∨ c = 255 then ([], .ok () r) else ([], .err 400)
 
+/-- status code text → effect (bounded strtol: the whole token must be consumed) -/
+def codeEff (ctok : Bytes) : P Unit :=
+  if (Net.strtol10 ctok).2 ≠ [] then fail 400 else emit (.setCode (wrapInt32 (Net.strtol10 ctok).1))
+
+/-- the status line after the 8 version bytes -/
+def statusRest : P Unit :=
+  P.seq expectSpOrEof <|
+  P.bind (untilAny [32]) fun ctok =>
+  P.seq (codeEff ctok) <|
+  P.seq skip1 <|
+  P.bind untilEol fun _ => skip2
+
 def responseLine : P Unit := fun s =>
   if s.length < 8 then ([], .again)
   else if ¬ ((bytes "HTTP/1.1").isPrefixOf s ∨ (bytes "HTTP/1.0").isPrefixOf s) then ([], .err 400)
-  else
-    (do
-      expectSpOrEof
-      let ctok ← untilAny [32]
-      let r := Net.strtol10 ctok
-      if r.2 ≠ [] then fail 400
-      else
-        emit (.setCode (wrapInt32 r.1))
-        skip1
-        let _ ← untilEol
-        skip2) (s.drop 8)
+  else statusRest (s.drop 8)
 
 /-! ### headers -/
 
@@ -262,24 +270,26 @@ def dropSp : Bytes → Bytes
 /-- skip SPs, then the value up to CRLF -/
 def valueTok : P Bytes := fun s => untilEol (dropSp s)
 
-/-- one header line: name up to ':', skip SPs, value up to CRLF, CRLF -/
-def headerLine : P Unit := do
-  let name ← untilAny [58]
-  skip1
-  let value ← valueTok
+/-- what a complete header line does -/
+def headerEff (name value : Bytes) : P Unit :=
   match headerEffects name value with
   | .error (some c) => fail c
   | .error none => failUnspec
-  | .ok es =>
-    emits es
-    skip2
+  | .ok es => emits es
+
+/-- one header line: name up to ':', skip SPs, value up to CRLF, CRLF -/
+def headerLine : P Unit :=
+  P.bind (untilAny [58]) fun name =>
+  P.seq skip1 <|
+  P.bind valueTok fun value =>
+  P.seq (headerEff name value) skip2
 
 def headersLoop : Nat → P Unit
   | 0 => fun _ => ([], .again)
   | fuel + 1 => fun s =>
     match s with
     | 13 :: 10 :: r => ([], .ok () r)
-    | _ => (do headerLine; headersLoop fuel) s
+    | _ => P.seq headerLine (headersLoop fuel) s
 
 def headers : P Unit := fun s => headersLoop (s.length + 1) s
 
@@ -428,17 +438,22 @@ def runBody (q : PState) : PState × Outcome :=
   let st1 := bodyFeed st0 q.unread
   ({ q with bst := some st1, unread := [], msg := { q.msg with body := st1.body } }, outcomeOf st1.mode)
 
+/-- headers step (if it is the current one), then the body step -/
+def stage1 (q : PState) : PState × Outcome :=
+  if q.step = 1 then
+    match runLine q headers with
+    | (q1, some o) => (q1, o)
+    | (q1, none) => runBody q1
+  else runBody q
+
 /-- `ParserBase::parse`: run steps from the current one until Again/Done/error.
     A line step that returns Again leaves the cursor at the step start but keeps its effects. -/
 def parse (p : PState) : PState × Outcome :=
-  let s0 : PState × Option Outcome := if p.step = 0 then runLine p (firstLine p.kind) else (p, none)
-  match s0 with
-  | (q, some o) => (q, o)
-  | (q, none) =>
-    let s1 : PState × Option Outcome := if q.step = 1 then runLine q headers else (q, none)
-    match s1 with
-    | (q1, some o) => (q1, o)
-    | (q1, none) => runBody q1
+  if p.step = 0 then
+    match runLine p (firstLine p.kind) with
+    | (q, some o) => (q, o)
+    | (q, none) => stage1 q
+  else stage1 p
 
 /-- `ParserBase::reset` + `ParserImpl::reset` (after the repair: the body step's progress is cleared too) -/
 def reset (p : PState) : PState := init p.kind p.max
